@@ -81,6 +81,10 @@ class RefSession:
 
     # -- operations ---------------------------------------------------------------
     def expect(self, op):
+        if op.ret is not None and "skip" in op.ret:
+            # the driver did not make this call (API form not compiled into this build): the real context did not move,
+            # so the reference context must not move either
+            return None
         try:
             return self._expect(op)
         except StageError as e:
